@@ -148,6 +148,12 @@ pub fn gen(rng: &mut Rng, n: usize, out: &mut Vec<String>) {
                 }
                 continue;
             }
+            if rng.chance(1, 25) {
+                if let Some(l) = closeacct_case(&s, rng, stranger) {
+                    out.push(l);
+                }
+                continue;
+            }
             if rng.chance(1, 14) {
                 if let Some(l) = delev_case(&s, rng, stranger, risk_admin) {
                     out.push(l);
@@ -607,6 +613,57 @@ fn endfl_case(s: &Scen, rng: &mut Rng, stranger: Pubkey) -> Option<String> {
     match w.exec(&ixn) {
         Ok(()) => Some(format!("{} => ok {}", head, w.marginfi_account(&acct_key).account_flags)),
         Err(ExecErr::Custom(code)) if code >= 6000 => Some(format!("{} => err {}", head, code)),
+        Err(ExecErr::Panic) => Some(format!("{} => panic", head)),
+        Err(_) => None,
+    }
+}
+
+/// `wd.closeacct`: the REAL marginfi_account_close through dispatch: the account as the scenario left it, or emptied (every
+/// position brought to zero / to dust below one share / to exactly one share, positions left ACTIVE with nothing in them, one
+/// funded position hidden below an empty one), flagged disabled / in a flash loan / in receivership / frozen, signed by its
+/// authority, the group admin or a stranger.  `=> ok closed`
+fn closeacct_case(s: &Scen, rng: &mut Rng, stranger: Pubkey) -> Option<String> {
+    let u = rng.below(s.users.len() as u64) as usize;
+    let mut w = s.w.clone();
+    let acct_key = s.users[u].acct;
+    let h = s.banks[0];
+    let mut a = w.marginfi_account(&acct_key);
+    match rng.below(6) {
+        0 => {}
+        1 => { for bal in a.lending_account.balances.iter_mut() { *bal = marginfi_type_crate::types::Balance::empty_deactivated(); } }
+        _ => {
+            // emptied, the slots still active; then one position may get something back
+            let dust = |rng: &mut Rng| -> i128 { *rng.pick(&[0i128, 0, 1, ONE / 2, ONE - 1]) };
+            for bal in a.lending_account.balances.iter_mut().filter(|x| x.is_active()) {
+                bal.asset_shares = I80F48::from_bits(dust(rng)).into();
+                bal.liability_shares = I80F48::from_bits(dust(rng)).into();
+            }
+            if rng.chance(1, 2) {
+                let n = a.lending_account.balances.iter().filter(|x| x.is_active()).count();
+                if n > 0 {
+                    let k = rng.below(n as u64) as usize;
+                    if let Some(bal) = a.lending_account.balances.iter_mut().filter(|x| x.is_active()).nth(k) {
+                        if rng.chance(1, 2) { bal.asset_shares = I80F48::from_bits(*rng.pick(&[ONE, ONE + 1, 1000 * ONE])).into(); }
+                        else { bal.liability_shares = I80F48::from_bits(*rng.pick(&[ONE, ONE + 1, 1000 * ONE])).into(); }
+                    }
+                }
+            }
+        }
+    }
+    if rng.chance(1, 3) { a.account_flags |= *rng.pick(&[ACCOUNT_DISABLED, ACCOUNT_IN_FLASHLOAN, ACCOUNT_IN_RECEIVERSHIP, ACCOUNT_FROZEN, ACCOUNT_IN_DELEVERAGE]); }
+    w.set_marginfi_account(&acct_key, &a);
+    let signer = if rng.chance(3, 4) { s.users[u].wallet } else { *rng.pick(&[stranger, s.admin]) };
+    let (head, _keys) = context_line(s, &w, "wd.closeacct", &acct_key, &h, signer, h.liquidity_vault, 0, false);
+    let mut toks: Vec<String> = head.split(' ').map(|x| x.to_string()).collect();
+    toks[127] = "0".to_string(); // no bank is operated on
+    let head = toks.join(" ");
+    let holds_something = a.lending_account.balances.iter().any(|b| bits(b.asset_shares) >= ONE || bits(b.liability_shares) >= ONE);
+    match w.exec(&ix::close_account(acct_key, signer, signer)) {
+        // (from the property text, whatever the model says)
+        Ok(()) if holds_something => Some(format!("{} => ok closed-although-not-empty", head)),
+        Ok(()) if signer != s.users[u].wallet => Some(format!("{} => ok closed-for-someone-else-than-the-authority", head)),
+        Ok(()) => Some(format!("{} => ok closed", head)),
+        Err(ExecErr::Custom(code)) if code >= 2000 => Some(format!("{} => err {}", head, code)),
         Err(ExecErr::Panic) => Some(format!("{} => panic", head)),
         Err(_) => None,
     }
